@@ -189,7 +189,7 @@ def build_rows(headers, layout, data_cell=None, lead_data=True):
         counter[0] += 1
         if data_cell is not None:
             return data_cell(k, sp, headers[sp])
-        return NOTE_POOL[k % len(NOTE_POOL)] if headers[sp] in ('**kern',) else WORD_POOL[k % len(WORD_POOL)]
+        return NOTE_POOL[k % len(NOTE_POOL)] if headers[sp] in ('**kern', '**root') else WORD_POOL[k % len(WORD_POOL)]
 
     rows = [list(headers)]
     live = list(range(len(headers)))
